@@ -135,6 +135,10 @@ func (d *dir) RepoGet(ctx context.Context, repoStr string) (Repo, error) {
 	if stringsHasAny(strings.Split(repoStr, "/"), indexFile, layoutFile, blobsDir) {
 		return nil, fmt.Errorf("repo %s cannot contain %s, %s, or %s%.0w", repoStr, indexFile, layoutFile, blobsDir, types.ErrRepoNotAllowed)
 	}
+	if len(repoStr) > repoNameMax {
+		// a longer name cannot be created as a directory, clients are expected to limit the name to 255 characters
+		return nil, fmt.Errorf("repo name is longer than %d characters%.0w", repoNameMax, types.ErrRepoNotAllowed)
+	}
 	dr := dirRepo{
 		wgBlock: make(chan struct{}, 1),
 		path:    filepath.Join(d.root, repoStr),
